@@ -21,7 +21,6 @@ structure Timeline (cl : List Child) : Prop where
   regime : CommitRegime cl
   sorted : CommitSorted cl
   indexed : WellIndexed cl
-  ts : ∀ c ∈ cl, commitInfoStart ≤ c.ts
 
 def ParentCommit (p : ParentV) (P : Int) : Prop := p.committed = some P ∧ commitInfoStart ≤ P
 
@@ -279,7 +278,7 @@ theorem time_travel (o : Options) (parents : List ParentV) (fid : Nat) (cl : Lis
     | none => simp
     | some c =>
       obtain ⟨tc, htc, htc2⟩ := tl.regime c (List.mem_of_getElem? hk)
-      have hf := fun i => update_fields c i tc htc (tl.ts c (List.mem_of_getElem? hk))
+      have hf := fun i => update_fields c i tc htc htc2
       have hiff := commit_le_iff_lt_count cl t tl.sorted k c hk
       have hco : commitOf c = tc := by simp [commitOf, htc]
       rw [hco] at hiff
@@ -379,7 +378,6 @@ in the commit-time regime, with time stamps as ground truth. -/
 /-- a child history as the datasource hands it over, in the timestamp regime -/
 structure TsTimeline (cl : List Child) : Prop where
   regime : TsRegime cl
-  stamp : ∀ c ∈ cl, updateTimestamp c.ts c.committed = c.ts
   sorted : TsSorted cl
   indexed : WellIndexed cl
 
@@ -576,7 +574,8 @@ theorem time_travel_ts (o : Options) (heps : 0 ≤ o.threshold) (parents : List 
     cases hk : cl[k]? with
     | none => simp
     | some c =>
-      have hst := tl.stamp c (List.mem_of_getElem? hk)
+      have hst : updateTimestamp c.ts c.committed = c.ts := by
+        simp [updateTimestamp, tl.regime c (List.mem_of_getElem? hk)]
       have hf : ∀ i, (c.update i).index = i ∧ (c.update i).ts = c.ts := fun i => by simp [Child.update, hst]
       have hiff := ts_le_iff_lt_count cl t tl.sorted k c hk
       have hco : tsOf c = c.ts := rfl
@@ -616,7 +615,7 @@ def exCl : List Child := [
   ⟨3, 12, 2, 1400000300, some 1400000300, 3, 3, true, false⟩]
 def exParents : List ParentV := [⟨10, true, 1400000050, some 1400000050, [(7, false)]⟩, ⟨12, true, 1400000300, some 1400000300, [(7, false)]⟩]
 example : Timeline exCl := by
-  refine ⟨?_, by unfold CommitSorted; decide, ?_, by decide⟩
+  refine ⟨?_, by unfold CommitSorted; decide, ?_⟩
   · intro c hc
     simp only [exCl, List.mem_cons, List.not_mem_nil, or_false] at hc
     rcases hc with rfl | rfl | rfl
@@ -653,7 +652,7 @@ def exTs : List Child := [
   ⟨3, 12, 2, 1250004600, none, 3, 3, true, false⟩]
 def exTsParents : List ParentV := [⟨11, true, 1250001000, none, [(7, false)]⟩, ⟨13, true, 1250010000, none, [(7, false)]⟩]
 example : TsTimeline exTs := by
-  refine ⟨by unfold TsRegime; decide, by decide, by unfold TsSorted; decide, ?_⟩
+  refine ⟨by unfold TsRegime; decide, by unfold TsSorted; decide, ?_⟩
   intro k c h
   match k with
   | 0 => simp [exTs] at h; subst h; rfl
